@@ -404,6 +404,7 @@ class Gen2:
         self.init = set(range(len(ptys)))     # variables certainly holding a value here
         self.ro = set()                       # loop counters: readable, never assigned by generated statements
         self.hist = {}
+        self.acc = None                       # an unsigned accumulator updated in loop bodies and folded into the result
         self.g = Gen(rng, self.vtys)
 
     def count(self, k):
@@ -557,6 +558,23 @@ class Gen2:
         self.count('set')
         return 'p%d = p%d %s 1' % (k, k, CSYM[op]), '(set %d %s %s)' % (k, t, sx(tree))
 
+    def accstep(self, k):
+        """`acc = acc * 3 + p<k>;` (unsigned arithmetic: always defined) - makes the number and order of the
+        iterations observable"""
+        if self.acc is None or self.rng.random() < 0.3:
+            return None
+        a = self.acc
+        t = self.vtys[a]
+        src = ('B', 'add', ('B', 'mul', ('P', a), ('K', 3, '3', True, '')), ('P', k))
+        self.count('set')
+        return 'p%d = %s' % (a, ctext(src)), '(set %d %s %s)' % (a, t, sx(conv(parse(src, self.vtys), t)))
+
+    def withacc(self, k, stc, stt):
+        x = self.accstep(k)
+        if x is None:
+            return stc, stt
+        return '%s; %s' % (stc, x[0]), '%s %s' % (stt, x[1])
+
     def cond_lt(self, k, n, scope):
         """`p<k> < n`, sometimes `&& e`"""
         r = self.rng
@@ -596,7 +614,7 @@ class Gen2:
             self.count('while')
             src = ('P', k)
             saved = set(self.init)
-            stc, stt = self.step(k, False)
+            stc, stt = self.withacc(k, *self.step(k, False))
             bc, bt, _ = self.body(scope, depth - 1, True, 3)
             self.init = saved
             bt = '(block %s %s' % (stt, bt[len('(block '):]) if bt != '(block)' else '(block %s)' % stt
@@ -617,7 +635,7 @@ class Gen2:
                         '(for %s %s %s %s)' % ('(set %d %s %s)' % (k, self.vtys[k], sx(conv(('c', 'i', 0), self.vtys[k])))
                                                if ini else '(skip)', sx(ctree), stt, bt)))
             return out
-        stc, stt = self.step(k, True)
+        stc, stt = self.withacc(k, *self.step(k, True))
         bc, bt, _ = self.body(scope, depth - 1, True, 3)
         self.init = saved
         bt = '(block %s %s' % (stt, bt[len('(block '):]) if bt != '(block)' else '(block %s)' % stt
@@ -695,9 +713,27 @@ def gen2(seed, charsigned, n, nargs=4, prefix='g', level='C'):
         ret = rng.choice(TYS)
         g = Gen2(rng, ptys, ret, level)
         scope = list(range(np_))
+        pre = []
+        if level == 'C' and rng.random() < 0.6:
+            t = rng.choice(['u', 'ul', 'us', 'ull'])
+            k = g.newvar(t)
+            scope.append(k)
+            g.init.add(k)
+            g.ro.add(k)
+            g.acc = k
+            g.count('decl-init')
+            pre = [('%s p%d = 1;' % (CNAME[t], k), '(decl %d %s %s)' % (k, t, sx(conv(('c', 'i', 1), t))))]
         items, term = g.stmts(scope, rng.randrange(0, 3), False, rng.randrange(0, 6))
+        items = pre + items
         if not term:
-            items.append(g.ret(scope))
+            if g.acc is not None:
+                # return e ^ acc;
+                src, e = g.expr(scope)
+                src = ('B', 'xor', src, ('P', g.acc))
+                g.count('ret')
+                items.append(('return %s;' % ctext(src), '(ret %s)' % sx(conv(parse(src, g.vtys), ret))))
+            else:
+                items.append(g.ret(scope))
         name = '%s%d' % (prefix, idx)
         params = ', '.join('%s p%d' % (CNAME[t], i) for i, t in enumerate(ptys)) or 'void'
         c = '%s %s(%s) { %s }' % (CNAME[ret], name, params, ' '.join(x for x, _ in items))
